@@ -261,9 +261,9 @@ class AbsMachine:
                 if isinstance(v, tuple):
                     return len(v)
                 return UNKNOWN
-            if isinstance(e.func, ast.Name) and e.func.id in ("list", "tuple") and len(e.args) <= 1:
+            if isinstance(e.func, ast.Name) and e.func.id in ("list", "tuple", "set") and len(e.args) <= 1:
                 if not e.args:
-                    return AList(()) if e.func.id == "list" else ()
+                    return AList(()) if e.func.id != "tuple" else ()
                 v = self._deref(self.ev(e.args[0], env, chosen), env)
                 if isinstance(v, AList):
                     return AList(v.items) if e.func.id == "list" else tuple(v.items)
@@ -556,6 +556,13 @@ class AbsMachine:
                 return None
             if m == "clear":
                 self._store_list(loc, AList(()), env)
+                return None
+            if m == "add" and len(args) == 1:  # set semantics on the ordered abstract collection
+                if not any(sym_eq(x, args[0]) is True for x in val.items):
+                    self._store_list(loc, AList(val.items + (args[0],)), env)
+                return None
+            if m == "discard" and len(args) == 1:
+                self._store_list(loc, AList(tuple(x for x in val.items if sym_eq(x, args[0]) is not True)), env)
                 return None
             if m == "pop":
                 it = list(val.items)
